@@ -646,6 +646,180 @@ fn fail_filter(k: OpKind, p: &str) -> bool {
 // D: a reader in the middle of loading
 // ------------------------------------------------------------------------------------------
 
+/// D2: forced schedule. A reader of a SECOND `Index` instance over the same directory (its
+/// SegmentMeta objects do not protect anything in the writer's inventory, like another process)
+/// reloads; it is paused at its first storage operation after `atomic_read(meta.json)`.
+/// * If it holds META_LOCK at that point (the order of the unchanged code), the writer's merge +
+///   commit + collection are started and the reader goes on as soon as the collection is seen
+///   waiting for the lock: the collection can only finish after the reader released it.
+/// * If it does not hold META_LOCK yet (it read the segment list before locking), merge + commit
+///   + collection run to completion first — a schedule the lock does not exclude.
+/// Oracle: the reload succeeds, none of the reader's `open_read`s fails, all documents are seen.
+fn check_reader_forced(ctx: &mut Ctx) {
+    struct Shared {
+        armed: AtomicBool,
+        saw_meta_read: AtomicBool,
+        holds_lock: AtomicBool,
+        paused_once: AtomicBool,
+        gc_at_lock: AtomicBool,
+        writer_done: AtomicBool,
+        lock_held_at_pause: AtomicBool,
+        writer: Mutex<Option<IndexWriter>>,
+        ids: Mutex<Vec<tantivy::index::SegmentId>>,
+        handle: Mutex<Option<std::thread::JoinHandle<(IndexWriter, Vec<String>)>>>,
+    }
+    let mut rng = ctx.rng.fork();
+    let (schema, f) = c01::schema();
+    let vdir = VDir::new();
+    let case = json!({"kind": "reader-forced", "seed": ctx.seed});
+    let index_w = Index::create(vdir.clone(), schema, Default::default()).unwrap();
+    tantivy::verif::set_segment_cut_docs(1);
+    let mut w: IndexWriter = index_w.writer_with_num_threads(1, 15_000_000).unwrap();
+    w.set_merge_policy(Box::new(NoMergePolicy));
+    let n = 2 + rng.below(3);
+    for id in 1..=n {
+        w.add_document(doc!(f.id => id, f.grp => c01::grp_of(id), f.body => "forced reader")).unwrap();
+    }
+    w.commit().unwrap();
+    tantivy::verif::set_segment_cut_docs(0);
+    let ids = index_w.searchable_segment_ids().unwrap();
+    // the reader's own Index instance
+    let index_r = Index::open(vdir.clone()).unwrap();
+    let reader = index_r.reader_builder().reload_policy(tantivy::ReloadPolicy::Manual).try_into().unwrap();
+    let sh = Arc::new(Shared {
+        armed: AtomicBool::new(true),
+        saw_meta_read: AtomicBool::new(false),
+        holds_lock: AtomicBool::new(false),
+        paused_once: AtomicBool::new(false),
+        gc_at_lock: AtomicBool::new(false),
+        writer_done: AtomicBool::new(false),
+        lock_held_at_pause: AtomicBool::new(false),
+        writer: Mutex::new(Some(w)),
+        ids: Mutex::new(ids),
+        handle: Mutex::new(None),
+    });
+    let meta_lock_name = META_LOCK.filepath.to_string_lossy().to_string();
+    let sh2 = sh.clone();
+    let lock_name = meta_lock_name.clone();
+    vdir.set_hook(Some(Arc::new(move |rec: &OpRec| {
+        if !sh2.armed.load(Ordering::SeqCst) {
+            return;
+        }
+        if rec.thread != "c10-reader" {
+            // the collection reaches for META_LOCK while the reader is paused / loading
+            if rec.kind == OpKind::OpenWrite && rec.path == lock_name {
+                sh2.gc_at_lock.store(true, Ordering::SeqCst);
+            }
+            return;
+        }
+        if rec.kind == OpKind::OpenWrite && rec.path == lock_name {
+            sh2.holds_lock.store(true, Ordering::SeqCst);
+        }
+        if rec.kind == OpKind::Delete && rec.path == lock_name {
+            sh2.holds_lock.store(false, Ordering::SeqCst);
+        }
+        if rec.kind == OpKind::AtomicRead && rec.path == c01::META {
+            sh2.saw_meta_read.store(true, Ordering::SeqCst);
+            return;
+        }
+        if !sh2.saw_meta_read.load(Ordering::SeqCst) || sh2.paused_once.swap(true, Ordering::SeqCst) {
+            return;
+        }
+        // first operation of the reader after it has read meta.json: the pause point.
+        // (in the shape "read first, lock second" this operation is the lock's open_write itself,
+        // which has not been executed yet: the reader does not hold the lock)
+        let this_is_lock = rec.kind == OpKind::OpenWrite && rec.path == lock_name;
+        let held = sh2.holds_lock.load(Ordering::SeqCst) && !this_is_lock;
+        if this_is_lock {
+            sh2.holds_lock.store(false, Ordering::SeqCst);
+        }
+        sh2.lock_held_at_pause.store(held, Ordering::SeqCst);
+        let w = sh2.writer.lock().unwrap().take();
+        let ids = sh2.ids.lock().unwrap().clone();
+        let sh3 = sh2.clone();
+        if let Some(mut w) = w {
+            let h = std::thread::Builder::new().name("c10-writer".into()).spawn(move || {
+                let mut errs = vec![];
+                if let Err(e) = w.merge(&ids).wait() {
+                    errs.push(format!("merge: {e}"));
+                }
+                if let Err(e) = w.commit() {
+                    errs.push(format!("commit: {e}"));
+                }
+                if let Err(e) = w.garbage_collect_files().wait() {
+                    errs.push(format!("gc: {e}"));
+                }
+                sh3.writer_done.store(true, Ordering::SeqCst);
+                (w, errs)
+            });
+            if let Ok(h) = h {
+                *sh2.handle.lock().unwrap() = Some(h);
+            }
+        }
+        let t0 = Instant::now();
+        if held {
+            // the lock is ours: wait only until the collection is seen reaching for it
+            while !sh2.gc_at_lock.load(Ordering::SeqCst) && !sh2.writer_done.load(Ordering::SeqCst) && t0.elapsed() < Duration::from_secs(3) {
+                std::thread::sleep(Duration::from_millis(1));
+            }
+        } else {
+            // nothing keeps the writer from finishing: let it
+            while !sh2.writer_done.load(Ordering::SeqCst) && t0.elapsed() < Duration::from_secs(20) {
+                std::thread::sleep(Duration::from_millis(1));
+            }
+        }
+    })));
+    let log_before = vdir.log_len();
+    let reload = std::thread::Builder::new().name("c10-reader".into()).spawn(move || {
+        let r = reader.reload().map_err(|e| e.to_string());
+        let ids = r.clone().and_then(|_| {
+            let s = reader.searcher();
+            s.search(&tantivy::query::AllQuery, &tantivy::collector::Count).map_err(|e| e.to_string())
+        });
+        (r, ids)
+    }).unwrap().join();
+    sh.armed.store(false, Ordering::SeqCst);
+    vdir.set_hook(None);
+    let joined = sh.handle.lock().unwrap().take().map(|h| h.join());
+    ctx.report.case("reader-forced", true);
+    ctx.report.count(if sh.lock_held_at_pause.load(Ordering::SeqCst) { "reader-forced:paused-holding-meta-lock" } else { "reader-forced:paused-without-meta-lock" });
+    if !sh.paused_once.load(Ordering::SeqCst) {
+        ctx.report.violation("model", "C10:reader-forced-schedule-not-reached", "the reader never read meta.json / never reached the pause point".into(), case.clone());
+    }
+    // the reader's own open_reads
+    let log = vdir.log();
+    for r in &log[log_before..] {
+        if r.thread == "c10-reader" && r.kind == OpKind::OpenRead && !r.ok {
+            ctx.report.violation("oracle", "C10:reader-open-after-gc-failed", format!("the loading reader's open_read of {} failed: garbage collection deleted a file of the segment list it had read (META_LOCK held at the pause: {})", r.path, sh.lock_held_at_pause.load(Ordering::SeqCst)), case.clone());
+            break;
+        }
+    }
+    match reload {
+        Ok((Ok(()), Ok(cnt))) => {
+            if cnt as u64 != n {
+                ctx.report.violation("oracle", "C10:reader-sees-wrong-content", format!("reloaded searcher counts {cnt} documents, expected {n}"), case.clone());
+            }
+        }
+        Ok((Err(e), _)) | Ok((_, Err(e))) => ctx.report.violation("oracle", "C10:reader-reload-failed", format!("IndexReader::reload of a second Index instance failed while the writer merged, committed and collected: {e}"), case.clone()),
+        Err(_) => ctx.report.violation("oracle", "C10:reader-reload-failed", "reload panicked".into(), case.clone()),
+    }
+    match joined {
+        Some(Ok((w, errs))) => {
+            for e in errs {
+                ctx.report.violation("oracle", "C10:history-op-failed", e, case.clone());
+            }
+            let _ = w.wait_merging_threads();
+        }
+        Some(Err(_)) => ctx.report.violation("oracle", "C10:history-op-failed", "writer thread panicked".into(), case.clone()),
+        None => {}
+    }
+    // afterwards everything is collected
+    if let Ok(w2) = index_w.writer_with_num_threads::<tantivy::TantivyDocument>(1, 15_000_000) {
+        let _ = w2.garbage_collect_files().wait();
+    }
+    check_quiescent(ctx, &vdir, &index_w, "after the forced reader schedule", &case);
+}
+
 fn check_reader_window(ctx: &mut Ctx) {
     let mut rng = ctx.rng.fork();
     let (schema, f) = c01::schema();
@@ -939,6 +1113,7 @@ fn replay(ctx: &mut Ctx, case: &serde_json::Value) {
         "managed-write-fault" => check_managed_write_fault(ctx, case["nth"].as_u64(), case["cut_docs"].as_u64().unwrap_or(1) as u32, case["docs"].as_u64().unwrap_or(3)),
         "gc-vs-model" => check_gc_vs_model(ctx, case["fail_some"].as_bool().unwrap_or(false)),
         "reader-window" => check_reader_window(ctx),
+        "reader-forced" => check_reader_forced(ctx),
         k => ctx.report.notes.push(format!("replay kind {k:?} unknown")),
     }
 }
@@ -954,6 +1129,7 @@ pub fn run(ctx: &mut Ctx) {
         "no delete hits a file a live SegmentMeta lists; no open_read of a non-lock file fails; content intact with GC forced at worker operations".into(),
         "one collection: real (directory, managed, deleted, failed) = model fullGC = model small-step run, incl. failing deletes".into(),
         "a reader holding META_LOCK keeps its segment files while merge + commit + GC run".into(),
+        "forced schedule: a second Index instance's reload paused right after it read meta.json, merge + commit + GC of the writer meanwhile: reload succeeds".into(),
         "recovered crash image + commit + GC: no orphan unless a file exists that the image's .managed.json lacks (S2)".into(),
         "the real storage log satisfies R1-R3 (model regOK): registered before created, forgotten only after the unlink is durable".into(),
         "an I/O error on any .managed.json write, then recovery + commit + GC: quiescent equalities hold".into(),
@@ -1001,6 +1177,9 @@ pub fn run(ctx: &mut Ctx) {
     // D
     for _ in 0..ctx.budget(4, 20) {
         guarded(ctx, "reader window", check_reader_window);
+    }
+    for _ in 0..ctx.budget(3, 12) {
+        guarded(ctx, "forced reader schedule", check_reader_forced);
     }
     // E
     guarded(ctx, "recovered crash images", check_after_crash);
